@@ -161,10 +161,13 @@ Definition int64_max : Z := (2 ^ 63 - 1)%Z.
 Definition extremum (k : kind) : Z :=
   if Z.eqb (extremum_is_min_for (match k with KMiner => 0 | _ => 1 end)%Z) 0 then int64_max else int64_min.
 
+(* ConcurrentSummer::operator<<(Summary{s, n}): local (sum, num) += (s, n), both halves (_mm_add_epi64) *)
+Definition cell_add2 (s n : Z) (c : cell) : cell := ((fst c + s)%Z, (snd c + n)%Z).
+
 Definition cell_add (k : kind) (ver : Z) (v : Z) (c : cell) : cell :=
   match k with
   | KAdder => (adder_step (fst c) v, snd c)
-  | KSummer => ((fst c + v)%Z, (snd c + summer_unit)%Z)
+  | KSummer => cell_add2 v summer_unit c          (* operator<<(ssize_t v) = operator<<({v, 1}) *)
   | _ => if cmp_new_period ver (snd c) then (v, ver)
          else if cmp_of k (cmp_upd_lhs v (fst c)) (cmp_upd_rhs v (fst c)) then (v, snd c) else c
   end.
@@ -187,12 +190,18 @@ Definition cells_of (x : st) (i : inst) : list cell :=
 
 Definition sumZ (l : list Z) : Z := fold_right Z.add adder_sum_init l.
 
+(* ConcurrentSummer::value(): the for_each callback adds EVERY visited slot, both halves; regenerated: the function
+   contains no condition / early exit (summer_read_conditions = 0, summer_read_returns = 1: the final one).  If it ever
+   does, the model makes no claim about which slots are kept (it keeps none): correspondence and read_sum re-open. *)
+Definition summer_reader_unfiltered : bool := Z.eqb summer_read_conditions 0 && Z.eqb summer_read_returns 1.
+Definition summer_cells (cs : list cell) : list cell := filter (fun _ => summer_reader_unfiltered) cs.
+
 (* value() -> (a, b): adder (sum, 0); summer (sum, num); maxer/miner (value(), has_result) *)
 Definition read (cf : cfg) (x : st) (c : nat) (i : inst) : Z * Z :=
   let cs := cells_of x i in
   match ck cf with
   | KAdder => (sumZ (map fst cs), 0%Z)
-  | KSummer => (sumZ (map fst cs), sumZ (map snd cs))
+  | KSummer => (sumZ (map fst (summer_cells cs)), sumZ (map snd (summer_cells cs)))
   | k => let r := cmp_fold k (cver x c) cs in (if fst r then snd r else 0%Z, if fst r then 1%Z else 0%Z)
   end.
 
@@ -201,7 +210,8 @@ Inductive op :=
 | Spawn (t : nat) | Exit (t : nat)
 | CNew (c : nat) | CDel (c : nat) | CMove (c d : nat) | CMoveCtor (c d : nat)
 | CAdd (t c : nat) (v : Z) | CRead (c : nat) | CReset (c : nat)
-| CForEach (c : nat) | CAlive (c : nat) (cst : bool).
+| CForEach (c : nat) | CAlive (c : nat) (cst : bool)
+| CAdd2 (t c : nat) (s n : Z).     (* ConcurrentSummer << Summary{s, n} *)
 
 Inductive out :=
 | ONone | OSkip | OId (n : nat) | OSlot (k : nat) | OVal (a b : Z) | OList (l : option (list Z)).
@@ -305,6 +315,17 @@ Definition step (cf : cfg) (x : st) (o : op) : st * out :=
       match chnd x c with
       | Some i => (x, OList (option_map (map (fun k => fst (cmem x (i_sto i) k (i_off i)))) (for_each_alive x cst (i_sto i))))
       | None => (x, OSkip)
+      end
+  | CAdd2 t c s n =>
+      match ck cf, chnd x c with
+      | KSummer, Some i =>
+          if t_alive (thr x t) then
+            let '(x1, (so, k)) := local cf x t (i_sto i) in
+            let old := cmem x1 so k (i_off i) in
+            let x2 := set_cmem x1 (upd3 (cmem x1) so k (i_off i) (cell_add2 s n old)) in
+            (set_ghost x2 (upd (g_sum x2) c (g_sum x2 c + s)%Z) (upd (g_cnt x2) c (g_cnt x2 c + n)%Z) (g_per x2), OSlot k)
+          else (x, OSkip)
+      | _, _ => (x, OSkip)
       end
   end.
 
